@@ -587,6 +587,10 @@ func composeTRS(k int, sel string) [16]float64 {
 }
 
 func (d *Doc) checkInstances(no obj, k int, ms ModelSpec, add adder) {
+	ik := k // whose instance values the model carries
+	if ms.SharedInst {
+		ik = 0
+	}
 	gi, present := asObj(no["extensions"])["EXT_mesh_gpu_instancing"]
 	class := func(what string) string { return fmt.Sprintf("%s/%d instances/model#%d", what, ms.Inst, k) }
 	if ms.Inst == 0 {
@@ -614,9 +618,9 @@ func (d *Doc) checkInstances(no obj, k int, ms ModelSpec, add adder) {
 		def  []float64
 	}
 	for _, sp := range []spec{
-		{"TRANSLATION", 3, func(j int) []float64 { v := instT(k, j); return v[:] }, []float64{0, 0, 0}},
-		{"ROTATION", 4, func(j int) []float64 { v := instR(k, j); return v[:] }, []float64{0, 0, 0, 1}},
-		{"SCALE", 3, func(j int) []float64 { v := instS(k, j); return v[:] }, []float64{1, 1, 1}},
+		{"TRANSLATION", 3, func(j int) []float64 { v := instT(ik, j); return v[:] }, []float64{0, 0, 0}},
+		{"ROTATION", 4, func(j int) []float64 { v := instR(ik, j); return v[:] }, []float64{0, 0, 0, 1}},
+		{"SCALE", 3, func(j int) []float64 { v := instS(ik, j); return v[:] }, []float64{1, 1, 1}},
 	} {
 		want := make([]float64, 0, ms.Inst*sp.w)
 		for j := 0; j < ms.Inst; j++ {
